@@ -271,10 +271,15 @@ class World:
             node.sim_plan = g['sim_plan']
         if op in ('fill', 'autofill', 'send'):
             g['fill_kw'] = st.get('kw') or {}
+        kw_now = dict(st.get('kw') or {})
+        if kw_now.get('counter') == 'head+1':
+            # the documented manual handling: the caller reads the account's counter on the node itself and passes the next one
+            kw_now['counter'] = int(self.client.shell.contracts[self.pkh]()['counter']) + 1
+            self.bump(self.probes, 'caller_supplied_counter')
         if op == 'fill':
             src = g['filled'] if (st.get('from') == 'filled' and g['filled'] is not None) else g['base']
             g['fills'] += 1
-            g['filled'] = src.fill(**(st.get('kw') or {}))
+            g['filled'] = src.fill(**kw_now)
             g['path'] = 'fill'
             g['signed'] = None
         elif op == 'autofill':
@@ -282,7 +287,7 @@ class World:
             g['fills'] += 1
             if st.get('from') == 'filled' and g['filled'] is not None:
                 g['refilled_from_filled'] = True
-            g['filled'] = src.autofill(**(st.get('kw') or {}))
+            g['filled'] = src.autofill(**kw_now)
             g['path'] = 'autofill'
             g['signed'] = None
         elif op == 'seek_fee':
